@@ -211,6 +211,7 @@ package inode
 //@   callsite inode.(*Inode).bmap@1 requires [W-block-of-offset] arg2 == off / 4096 @C02
 //@   callsite alloctxn.(*AllocTxn).ReadBlock@1 requires [W-rmw-block] arg1 == blkno @C02
 //@   callsite buf.(*Buf).SetDirty@1 requires [W-publish] arg0 == buffer && buffer.Addr.Blkno == blkno && (forall k uint64 :: k < nbytes ==> buffer.Data[byteoff+k] == data[k]) && base(data) == base(dataBuf) && off(data) == off(dataBuf) + cnt @C02
+//@   callsite buf.(*Buf).SetDirty@1 requires [W-rest-kept-at-publish] forall k uint64 :: k < 4096 && !(byteoff <= k && k < byteoff + nbytes) ==> buffer.Data[k] == aftercall("alloctxn.(*AllocTxn).ReadBlock@1", buffer.Data[k]) @C02 @C12
 //@   callsite jrnl.(*Op).OverWrite@1 requires [W-whole-block] arg1.Blkno == blkno && arg1.Off == 0 && base(arg3) == base(dataBuf) && off(arg3) == off(dataBuf) + cnt && len(arg3) == 4096 @C02
 
 //@ spec (*Inode).Read(ip, atxn, offset, bytesToRead)
